@@ -74,6 +74,43 @@ func specWalkSetup(s *rt.Sim, tier string) func() {
 				rt.Log("muxer error: %v", e)
 			}
 		}()
+		// knob (own stream): earlier in this process the library's own client and server objects
+		// of this protocol were constructed for a connection that had negotiated some other
+		// protocol version (as Connection does after every handshake). That must leave the
+		// protocol's state machine as it is for the conversation walked now. The package-level
+		// map is put back at the end of the run, so that runs of one worker stay independent.
+		if rt.Choose("cfg.v", 3) == 2 {
+			type savedEntry struct {
+				hdr  []protocol.StateTransition
+				vals []protocol.StateTransition
+			}
+			saved := map[protocol.State]savedEntry{}
+			for k, e := range impl.Map {
+				saved[k] = savedEntry{e.Transitions, append([]protocol.StateTransition(nil), e.Transitions...)}
+			}
+			live := impl.Map
+			defer func() {
+				for k := range live {
+					if _, ok := saved[k]; !ok {
+						delete(live, k)
+					}
+				}
+				for k, sv := range saved {
+					copy(sv.hdr, sv.vals)
+					e := live[k]
+					e.Transitions = sv.hdr
+					live[k] = e
+				}
+			}()
+			vers := protocol.GetProtocolVersionsNtC()
+			if impl.Mode == protocol.ProtocolModeNodeToNode {
+				vers = protocol.GetProtocolVersionsNtN()
+			}
+			v := vers[rt.Choose("cfg.v", len(vers))]
+			earlierInstances(impl.Label, protocol.ProtocolOptions{Muxer: muxer.New(NewPair(&NetCfg{}).A), Mode: impl.Mode, Version: v, ErrorChan: make(chan error, 16)})
+			rt.Hit("specwalk.earlier-instance-of-another-version")
+			rt.Log("earlier instance of %s constructed for protocol version %d", impl.Label, v)
+		}
 		sm := stripTimeouts(impl.Map)
 		var init protocol.State
 		found := false
